@@ -101,3 +101,17 @@ Theorem c07_yields_at_most_once_per_call : forall e progs sched,
   (s_cur (c_sh (exec e (init progs) sched)) <= s_calls (c_sh (exec e (init progs) sched)))%N.
 Proof. exact yields_at_most_once_per_call. Qed.
 Print Assumptions c07_yields_at_most_once_per_call.
+
+(** the ghost counters of the model are functions of the label stream -- the stream the correspondence check
+    compares with the crate's, access by access: [s_calls] counts the labels that are calls of the wrapped
+    next() ([n_src]), [s_cur] those at which it yielded an element ([n_yield]).  What the theorems say about the
+    two counters is thereby a statement about the observable sequence of calls of the wrapped iterator *)
+Theorem c07_calls_are_the_source_labels : forall e progs sched,
+  s_calls (c_sh (exec e (init progs) sched)) = n_src (c_labels (exec e (init progs) sched)).
+Proof. exact calls_are_the_source_labels. Qed.
+Print Assumptions c07_calls_are_the_source_labels.
+
+Theorem c07_cursor_is_the_yielding_labels : forall e progs sched,
+  s_cur (c_sh (exec e (init progs) sched)) = n_yield (c_labels (exec e (init progs) sched)).
+Proof. exact cursor_is_the_yielding_labels. Qed.
+Print Assumptions c07_cursor_is_the_yielding_labels.
